@@ -16,6 +16,7 @@ Oracle per input of length n (see evaluate()):
   * a returned value walks to leaves of supported base types / registered classes only.
 No verdict depends on the wall clock.
 """
+import gc
 import json
 import os
 import shutil
@@ -60,14 +61,16 @@ ASSUMPTIONS = [
     "work is measured as executed source lines of mpgameserver/serializable.py (sys.monitoring LINE events); "
     "C-level work inside struct/bytes/str/cryptography is bounded by the input length by construction and is not counted",
     "bounds: lines <= 128*n + 1024 (+2048 at the server call sites for building the reply), tracemalloc peak <= "
-    "1024*n + 64 KiB; measured worst cases on the unmodified tree are 16.4 lines/byte and ~400 bytes/byte "
-    "(2-byte-per-level recursion that ends in an exception: frames + traceback entries)",
+    "2048*n + 64 KiB (garbage collector off during the measured call so the peak is a function of the input); "
+    "measured worst cases on the unmodified tree are 17.5 lines/byte and ~520 bytes/byte (2-byte-per-level recursion "
+    "that ends in an exception: two frames, two kwargs dicts, traceback entries and an instance per level), i.e. the "
+    "bounds carry a 7x / 4x margin; DESIGN.md's 256*n would raise false alarms on exactly those inputs",
     "RecursionError is an ordinary exception (recursion limit = caller depth + 1000, the interpreter default)",
     "loadz / load_persistant are documented private and not exercised",
     "the registry contains the library's classes plus this module's VpC14* harness classes (no heavier than ConnectionStats)",
     "timeout-* artefacts of libFuzzer (wall clock) are counted inconclusive, never as violations",
 ]
-BUDGET_S = {"quick": 60, "thorough": 780}
+BUDGET_S = {"quick": 90, "thorough": 780}
 
 VERIF = os.path.dirname(os.path.dirname(os.path.dirname(os.path.abspath(__file__))))
 CORPUS_DIR = os.path.join(VERIF, "corpus", "C14")
@@ -75,7 +78,7 @@ SCRATCH = os.path.join(VERIF, "scratch", "C14")
 
 WORK_C1, WORK_C0 = 128, 1024
 SITE_EXTRA_LINES = 2048
-ALLOC_C1, ALLOC_C0 = 1024, 64 * 1024
+ALLOC_C1, ALLOC_C0 = 2048, 64 * 1024
 REC_HEADROOM = 1000
 NO_LIMIT = 1 << 62
 
@@ -277,6 +280,8 @@ def _measure(fn, n, extra_lines=0, alloc=True):
     if alloc:
         tracemalloc.reset_peak()
         base = tracemalloc.get_traced_memory()[0]
+    gc_was = gc.isenabled()
+    gc.disable()   # collection timing depends on allocation history; off => the peak is a function of the input
     m.count = 0
     m.limit = r.limit
     try:
@@ -297,6 +302,8 @@ def _measure(fn, n, extra_lines=0, alloc=True):
         m.limit = NO_LIMIT
         r.lines = m.count
     r.peak = (tracemalloc.get_traced_memory()[1] - base) if alloc else 0
+    if gc_was:
+        gc.enable()
     if started:
         tracemalloc.stop()
     try:
@@ -408,6 +415,20 @@ def _first_known(data):
     return tid in ser.deserialize_types or tid in SerializableType.registry
 
 
+_DEV_STATS = {} if os.environ.get("VP_C14_DEVSTATS") else None   # development aid: worst use of each bound
+
+
+def _dev_note(data, target, r, n, extra):
+    for key, use in (("work", r.lines / float(WORK_C1 * n + WORK_C0 + extra)), ("alloc", r.peak / float(ALLOC_C1 * n + ALLOC_C0))):
+        for scope in (key, key + ("-big" if n >= 512 else "-small")):
+            if use > _DEV_STATS.get(scope, (0,))[0]:
+                _DEV_STATS[scope] = (round(use, 4), target, n, r.lines, r.peak, data[:40].hex())
+    _DEV_STATS["_n"] = _DEV_STATS.get("_n", 0) + 1
+    if _DEV_STATS["_n"] % 500 == 1:
+        with open(os.environ["VP_C14_DEVSTATS"] + ".%d" % os.getpid(), "w") as f:
+            json.dump(_DEV_STATS, f)
+
+
 def evaluate(data, target="loadb", alloc=True):
     """apply the oracle to one input at one entry point.
     returns (verdict, label): verdict is None or (signature, detail); label classifies the outcome"""
@@ -424,6 +445,8 @@ def evaluate(data, target="loadb", alloc=True):
         return (pre + "non-ordinary-exception", "%s raised %s: %s" % (head, type(r.exc).__name__, str(r.exc)[:200])), "base"
     if r.kind == "exc" and isinstance(r.exc, MemoryError):
         return (pre + "memory-error", "%s raised MemoryError" % head), "memoryerror"
+    if _DEV_STATS is not None:
+        _dev_note(data, target, r, n, extra)
     if r.kind == "exc":
         label = "%s@%s" % (type(r.exc).__name__, _site(r.exc))
     else:
@@ -698,7 +721,7 @@ BIG_COUNTS = [1000, 4096, 16383, 16384, 16385, 20000, 40000]
 @st.composite
 def container_node(draw, depth, hostile=True):
     tid = draw(st.sampled_from([T_SEQ, T_SEQ, T_MAP, T_SET]))
-    if hostile and draw(st.integers(0, 24)) == 0:
+    if hostile and draw(st.integers(0, 99)) == 0:
         n = draw(st.sampled_from(BIG_COUNTS))
         k = draw(st.integers(0, 2))
         if tid == T_MAP:
@@ -839,7 +862,8 @@ def nest_node(draw):
     p = NEST_PREFIXES[draw(st.sampled_from(names))]
     if draw(st.integers(0, 3)) == 0:
         p = p + NEST_PREFIXES[draw(st.sampled_from(names))]
-    d = draw(st.one_of(st.sampled_from(NEST_DEPTHS), st.integers(1, 40), st.integers(1, 40), st.integers(1, 1200)))
+    d = draw(st.one_of(st.integers(1, 40), st.integers(1, 40), st.integers(1, 40), st.integers(1, 120),
+                       st.sampled_from(NEST_DEPTHS), st.integers(1, 1200)))
     leaf = draw(st.one_of(st.just(raw(b"")), leaf_node(), st.just(raw(H(T_NULL)))))
     return cat(rep(d, raw(p)), leaf)
 
@@ -853,7 +877,7 @@ def node(depth, hostile=True):
                 object_node(depth, hostile), object_node(depth, hostile), enum_node(depth, hostile),
                 challenge_node(depth, hostile)]
         if hostile:
-            opts += [hello_node(depth, True), shello_node(depth, True), unknown_node(), nest_node()]
+            opts += [hello_node(depth, True), shello_node(depth, True), unknown_node()]
         _NODE_CACHE[key] = st.one_of(*opts)
     return _NODE_CACHE[key]
 
@@ -961,10 +985,10 @@ TARGET_SETS = [["loadb"], ["loadb"], ["loadb"], ["loadb", "hello"], ["loadb", "c
 def run_wire(spec, ctx):
     site = spec.get("site", False)
     if site:
-        top = st.one_of(hello_node(2), hello_node(2), challenge_node(2), challenge_node(2), shello_node(2), node(2), nest_node())
+        top = st.one_of(*([hello_node(2), challenge_node(2)] * 6 + [shello_node(2)] * 3 + [node(2)] * 4 + [nest_node()]))
         tsets = st.just(["loadb", "hello", "challenge", "client", "clientpin"])
     else:
-        top = st.one_of(node(3), node(3), node(2), nest_node())
+        top = st.one_of(*([node(3)] * 6 + [node(2)] * 3 + [nest_node()]))
         tsets = st.sampled_from(TARGET_SETS)
 
     @ctx.given(spec["n"], top, st.lists(mutation, max_size=3), st.integers(0, 3), tsets, salt=spec.get("i", 0))
@@ -1021,7 +1045,7 @@ def run_mut(spec, ctx):
     test()
 
 
-def crafted_table():
+def crafted_table(full=True):
     """yields (name, recipe, targets): the enumerated crafted inputs"""
     tails = [b"", b"\x00\x0f" * 2, b"\x00\x0f" * 32]
     readers = [("str", H(T_STR)), ("bytes", H(T_BYTES)), ("seq", H(T_SEQ)), ("map", H(T_MAP)), ("set", H(T_SET))]
@@ -1042,12 +1066,12 @@ def crafted_table():
             for v in BOUNDARY_INTS:
                 yield ("enum-value", raw(H(cls.type_id) + enc_int_as(tid, v)), ["loadb"])
     for pname, p in sorted(NEST_PREFIXES.items()):
-        for d in NEST_DEPTHS:
-            for leaf in (b"", H(T_NULL), enc_int(1)):
+        for d in (NEST_DEPTHS if full else [1, 50, 300, 490, 500, 2500]):
+            for leaf in ((b"", H(T_NULL), enc_int(1)) if full else (b"", H(T_NULL))):
                 yield ("nest:%s" % pname, cat(rep(d, raw(p)), raw(leaf)), ["loadb"])
     for tid in (T_SEQ, T_MAP, T_SET):
-        for n in (16383, 16384, 16385):
-            for declared in (n, n - 1, n + 1, 16384, 2 ** 31 - 1):
+        for n in ((16383, 16384, 16385) if full else (16384, 16385)):
+            for declared in ((n, n - 1, n + 1, 16384, 2 ** 31 - 1) if full else (n, 16384)):
                 bodies = [iota(n, -8000, H(T_NULL) if tid == T_MAP else b"")]
                 if tid != T_SET:
                     bodies.append(rep(n, raw((H(T_NULL) + H(T_NULL)) if tid == T_MAP else H(T_NULL))))
@@ -1077,7 +1101,7 @@ def crafted_table():
 
 def run_crafted(spec, ctx):
     k, n = spec["k"], spec["of"]
-    for i, (name, recipe, targets) in enumerate(crafted_table()):
+    for i, (name, recipe, targets) in enumerate(crafted_table(spec.get("full", False))):
         if i % n != k:
             continue
         data = expand(recipe)
@@ -1330,14 +1354,14 @@ def plan(tier):
         for i in range(5):
             specs.append({"part": "wire", "n": 5000, "i": i})
         for i in range(2):
-            specs.append({"part": "wire", "site": True, "n": 2500, "i": i})
+            specs.append({"part": "wire", "site": True, "n": 1500, "i": i})
         for i in range(2):
-            specs.append({"part": "mut", "n": 400, "i": i})
+            specs.append({"part": "mut", "n": 300, "i": i})
         for k in range(2):
             specs.append({"part": "crafted", "k": k, "of": 2})
         specs.append({"part": "firstid", "range": [0, 65536]})
         for i in range(4):
-            specs.append({"part": "atheris", "i": i, "seeded": i % 2 == 1, "runs": 250000, "max_time": 40, "fallback_n": 4000})
+            specs.append({"part": "atheris", "i": i, "seeded": i % 2 == 1, "runs": 200000, "max_time": 45, "fallback_n": 4000})
     else:
         for i in range(12):
             specs.append({"part": "wire", "n": 60000, "i": i})
@@ -1346,7 +1370,7 @@ def plan(tier):
         for i in range(6):
             specs.append({"part": "mut", "n": 5000, "i": i})
         for k in range(4):
-            specs.append({"part": "crafted", "k": k, "of": 4})
+            specs.append({"part": "crafted", "k": k, "of": 4, "full": True})
         for lo in range(0, 65536, 16384):
             specs.append({"part": "firstid", "range": [lo, lo + 16384]})
         for i in range(16):
